@@ -766,6 +766,18 @@ func orderedCopyWalk(w *World, fn *ssa.Function, isSource func(ssa.Value) bool) 
 		}
 	}
 	if store == nil {
+		// append form: acc = φ(make([]T, 0, …), append(acc, s[i])) at the header,
+		// the append on every iteration; a walk from index 0 that appends exactly
+		// its element each time fills the result index for index
+		if acc := appendCopyAcc(loop); acc != nil {
+			ei := errIndex(fn)
+			for _, b := range fn.Blocks {
+				if ret, ok := b.Instrs[len(b.Instrs)-1].(*ssa.Return); ok && loop.Done.Dominates(b) && ei >= 0 && isNilConst(ret.Results[ei]) && ret.Results[0] != ssa.Value(acc) {
+					return WalkReport{Why: "the success return does not return the slice the elements were copied into"}
+				}
+			}
+			return WalkReport{OK: true, Detail: "index-for-index copy (append form)"}
+		}
 		return WalkReport{Why: "elements are not copied index-for-index into a fresh result slice"}
 	}
 	for _, l := range loop.Latches {
@@ -787,6 +799,62 @@ func orderedCopyWalk(w *World, fn *ssa.Function, isSource func(ssa.Value) bool) 
 		}
 	}
 	return WalkReport{OK: true, Detail: "index-for-index copy"}
+}
+
+// appendCopyAcc: the loop's accumulator φ when the loop is an append-built copy
+// of the walked slice: acc = φ(make([]T, 0, …) from outside, append(acc, s[i])
+// from every latch), the append dominating every latch. nil otherwise.
+func appendCopyAcc(loop *SliceLoop) *ssa.Phi {
+	for _, in := range loop.Header.Instrs {
+		acc, ok := in.(*ssa.Phi)
+		if !ok {
+			break
+		}
+		if _, isSlice := acc.Type().Underlying().(*types.Slice); !isSlice {
+			continue
+		}
+		okAll, fresh := true, false
+		for i, e := range acc.Edges {
+			pred := loop.Header.Preds[i]
+			if !loop.Header.Dominates(pred) {
+				m, isMS := e.(*ssa.MakeSlice)
+				if !isMS {
+					okAll = false
+					break
+				}
+				if k, isK := constInt(m.Len); !isK || k != 0 {
+					okAll = false
+					break
+				}
+				fresh = true
+				continue
+			}
+			app, isCall := e.(*ssa.Call)
+			if !isCall {
+				okAll = false
+				break
+			}
+			bi, isB := app.Call.Value.(*ssa.Builtin)
+			if !isB || bi.Name() != "append" || len(app.Call.Args) != 2 || app.Call.Args[0] != ssa.Value(acc) {
+				okAll = false
+				break
+			}
+			el, single := singleAppended(app.Call.Args[1])
+			if !single || !elementOf(stripIface(el), loop.S, loop.Idx) {
+				okAll = false
+				break
+			}
+			for _, l := range loop.Latches {
+				if !app.Block().Dominates(l) {
+					okAll = false
+				}
+			}
+		}
+		if okAll && fresh {
+			return acc
+		}
+	}
+	return nil
 }
 
 // validatedThenCopied: the other accepted shape of the container's Values():
